@@ -1,6 +1,10 @@
 package props
 
-import "verif/harness/internal/fw"
+import (
+	"time"
+
+	"verif/harness/internal/fw"
+)
 
 var All = map[string]*fw.Prop{
 	"C01": C01,
@@ -27,3 +31,10 @@ var All = map[string]*fw.Prop{
 
 // StopServers ends the server subprocesses the socket-level checks started.
 func StopServers() { sysStopAll(); attStopAll(); c10StopAll() }
+
+func init() {
+	// in-process checks of pure functions: a call that takes 20 s does not terminate
+	for _, id := range []string{"C01", "C02", "C03", "C04", "C05", "C07", "C08", "C14", "C16", "C17"} {
+		All[id].CaseTimeout = 20 * time.Second
+	}
+}
